@@ -394,6 +394,7 @@ def run_proxy_scripts(scripts):
             lab.log = []
             sc.set_budget(6000)
             proxies = {}
+            held = {}
             tok = 0
             tr = []
             try:
@@ -403,7 +404,7 @@ def run_proxy_scripts(scripts):
                         if c in proxies:
                             proxies[c]._pyroRelease()       # the next call connects again by itself (the proxy knows the metadata already)
                         continue
-                    if kind in ("getattr_setann", "stream_setann", "unknown_member", "setann_inplace", "oneway_inplace", "ping",
+                    if kind in ("getattr_setann", "unknown_member", "setann_inplace", "oneway_inplace", "ping",
                                 "plain_noann", "mutate_reqann", "oneway_then_reset"):
                         continue
                     if c not in proxies:
@@ -422,6 +423,10 @@ def run_proxy_scripts(scripts):
                             p.setann_raise(tok)
                         elif kind == "plain":
                             p.plain(tok)
+                        elif kind == "stream_setann":
+                            # the streamed result is kept, unread, in the variable that takes the result of this client's next call
+                            held[c] = p.stream(tok)
+                            continue
                         elif kind == "raise":
                             p.boom(tok)
                         elif kind == "oneway_setann":
@@ -438,6 +443,7 @@ def run_proxy_scripts(scripts):
                         raise
                     except Exception:
                         pass
+                    held.pop(c, None)       # (`x = p.call()`: what x held before - an unread streamed result - is dropped now)
                     tr.append({"e": "Saw", "tok": tok, "anns": tokens_of(cc.response_annotations), "hs": "HSHK" in cc.response_annotations})
             except S.Hang:
                 tr.append({"e": "Hang"})
